@@ -196,7 +196,19 @@ def bl5(ctx, R):
             R.check(rdo == ms, "writer.TdmsSegment.leadin::raw data offset", fi.where(), "raw data offset = metadata size",
                     "raw data offset is `%s`, not the metadata size" % (show(rdo) if rdo else None))
             tag = items[0][2][0] if items[0][0] == "new" and items[0][2] else None
-            R.check(tag == ("phi", ("self", "is_index_file"), ("const", b"TDSh"), ("const", b"TDSm")),
+            FL_ = ("self", "is_index_file")
+            def _flag_or_override(t_):
+                # the segment's own flag, or an optional argument that overrides it when given:  flag if arg is None else arg
+                if t_ == FL_:
+                    return True
+                return isinstance(t_, tuple) and len(t_) == 4 and t_[0] == "phi" and isinstance(t_[1], tuple) and t_[1][:2] == ("cmp", "is") and t_[1][3] == ("const", None) \
+                    and t_[1][2][0] == "param" and t_[2] == FL_ and t_[3] == t_[1][2]
+            tag_ok = isinstance(tag, tuple) and len(tag) == 4 and tag[0] == "phi" and _flag_or_override(tag[1]) and tag[2:] == (("const", b"TDSh"), ("const", b"TDSm"))
+            if not tag_ok and isinstance(tag, tuple) and len(tag) == 4 and tag[0] == "phi" and tag[2:] == (("const", b"TDSh"), ("const", b"TDSm")) and tag[1][0] == "param":
+                R.unrecognised("writer.TdmsSegment.leadin::tag", fi.where(), "the tag is selected by the parameter `%s`; what the callers pass for it was not followed" % tag[1][1])
+                tag_ok = None
+            if tag_ok is not None:
+              R.check(tag_ok,
                     "writer.TdmsSegment.leadin::tag", fi.where(), "TDSh for the index file, TDSm for the data file", "segment tag is `%s`" % (show(tag) if tag else None))
     fi = prog.func("writer.TdmsSegment.write")
     write_fi = fi
@@ -519,6 +531,9 @@ def bl6(ctx, R):
         v = sy.function_value()
         uses_in_value = find(v, FLAG) if v[0] != "opaque" else []
         tag_phis = find(v, ("phi", FLAG, ("const", b"TDSh"), ("const", b"TDSm"))) if v[0] != "opaque" else []
+        if v[0] != "opaque":
+            # ... or the flag unless an optional argument overrides it:  (flag if arg is None else arg)
+            tag_phis = list(tag_phis) + list(find(v, ("phi", ("phi", ("cmp", "is", W("p"), ("const", None)), FLAG, W("p2")), ("const", b"TDSh"), ("const", b"TDSm"))))
         # statements guarded by the flag
         guarded = []
         for st in walk_body(fi.node):
@@ -891,6 +906,29 @@ def wt1(ctx, R):
     need = {"kTocMetaData", "kTocRawData", "kTocNewObjList"}
     for d in defs:
         v = prog.try_fold(d, fi.module)
+        if isinstance(v, tuple):
+            v = list(v)
+        if isinstance(v, list) and v and all(hasattr(x_, "name") and hasattr(x_, "value") for x_ in v):
+            v = [x_.name for x_ in v]
+        if not isinstance(v, list):
+            if isinstance(d, ast.Attribute) and dotted(d.value) == "self":
+                # kept in a field / class constant: follow it to the one constant it is given
+                cv = prog.class_const(fi.cls, d.attr) if fi.cls is not None else None
+                if isinstance(cv, (list, tuple)):
+                    v = [getattr(x_, "name", x_) for x_ in cv]
+            if not isinstance(v, list):
+                R.unrecognised("writer.TdmsSegment.write::toc flags", fi.where(d) if d is not None else fi.where(), "the ToC flags handed to leadin() (`%s`) do not fold to a constant list: not decided" % (unparse(d)[:60] if d is not None else None))
+                continue
+        if isinstance(v, list) and v and all(isinstance(x_, int) and not isinstance(x_, bool) for x_ in v):
+            # flag values (members of an IntFlag fold to their numbers): back to names through the table
+            try:
+                tab_ = prog.try_fold(prog.module("common").assigns.get("toc_properties"), prog.module("common"), default=None)
+            except Exception:
+                tab_ = None
+            if isinstance(tab_, dict):
+                inv_ = {val_: nm_ for nm_, val_ in tab_.items()}
+                if all(x_ in inv_ for x_ in v):
+                    v = [inv_[x_] for x_ in v]
         R.check(isinstance(v, list) and need <= set(v) and "kTocBigEndian" not in v, "writer.TdmsSegment.write::toc flags", fi.where(d),
                 "ToC = %s" % v, "a written segment's ToC flags are %s (not a constant list containing %s): metadata() always restates the complete "
                 "object list, so the segment must say so, otherwise readers keep the previous segment's object order" % (
